@@ -20,6 +20,7 @@ from ast import literal_eval
 from multiprocessing import Lock
 from multiprocessing import Value
 from pathlib import Path
+from typing import ClassVar
 from uuid import uuid4
 
 from strenum import StrEnum
@@ -60,6 +61,8 @@ class DirectoryCreator(Serializable):
 
     __last_directory: Path | None
     """The last created directory or ``None`` if none has been created."""
+
+    _ATTR_NOT_TO_SERIALIZE: ClassVar[set[str]] = {"_DirectoryCreator__lock"}
 
     def __init__(
         self,
